@@ -90,3 +90,56 @@ Example C03_example_api : forall s' w',
   exists w2, serialize_h 1 16 w' = Ret (Some (5, [130; 7; 98; 104; 105])) w2.
 Proof. intros s' w' E. apply (exAbs_theorems s' w' E). Qed.
 
+(* ------------------------------------------------------------------------------------------ *)
+(* Translator tie of what the serializer emits in which order (translator/effects.py,
+   gen/Gen_effects_ser.v, Bridge_effects_ser.v, HPlansSer_proofs.v): the head of an array / a map is the
+   encoder of its SIZE (or the indefinite start byte), then the elements in storage order, then a
+   break iff indefinite; an integer of width w goes through the fixed-width encoder of w. *)
+From Coq Require Import ZArith String.
+From CB Require Import PEnc GenLeafTypes HPlans HPlansSer HPlans_proofs HPlansSer_proofs Bridge_effects_ser.
+From CBGen Require Import Gen_effects_ser.
+Local Open Scope string_scope.
+Local Open Scope list_scope.
+Local Open Scope N_scope.
+
+Theorem C03_code_array_entry_followed : forall al (indef : bool) (xs : list item) size k a,
+  size < 2 ^ 64 -> len xs < 2 ^ 64 ->
+  fst (if indef then enc_byte 0x9F size else enc_uint (len xs) size 0x80) < 2 ^ 64 ->
+  let hd := if indef then enc_byte 0x9F size else enc_uint (len xs) size 0x80 in
+  let p := Gcbor_serialize_array al (dst_z (negb indef)) (Z.of_N (len xs)) (Z.of_N size) k a (Z.of_N (fst hd)) in
+  p_reqs p = [if indef then ReqCall "cbor_encode_indef_array_start" (whole size)
+              else ReqCall "cbor_encode_array_start" (AZ (Z.of_N (len xs)) :: whole size)] /\
+  serialize_into (IArray indef xs) size =
+    if returns p then Some (0, snd hd)
+    else ser_close indef size (ser_seq serialize_into xs size (fieldN "acc0" p) (snd hd)).
+Proof. exact code_array_entry_followed. Qed.
+Print Assumptions C03_code_array_entry_followed.
+
+Theorem C03_code_int_followed : forall (neg : bool) w g8 g16 g32 g64 size c,
+  size < 2 ^ 64 -> c < 2 ^ 64 ->
+  let p := (if neg then Gcbor_serialize_negint else Gcbor_serialize_uint) (iw_z w) (Z.of_N size) g16 g32 g64 g8 (Z.of_N c) in
+  let payload := match w with I8 => g8 | I16 => g16 | I32 => g32 | I64 => g64 end in
+  p_reqs p = [ReqCall (int_encoder neg w) (AZ payload :: whole size)] /\ ret_N p = c /\
+  encoder_model (int_encoder neg w) = Some (fun v s => ser_int (if neg then 0x20 else 0x00) w v s).
+Proof. exact code_int_followed. Qed.
+Print Assumptions C03_code_int_followed.
+
+Theorem C03_map_round_follows_plan : forall definite total k kv size written w1 o1 w2 o2,
+  written <= size -> size < 2 ^ 64 -> k < total ->
+  serialize_into (fst kv) (size - written) = Some (w1, o1) -> w1 <= size - written ->
+  (w1 <> 0 -> serialize_into (snd kv) (size - written - w1) = Some (w2, o2) /\ w2 <= size - written - w1) ->
+  let p := map_round_plan definite total k written size w1 w2 in
+  (w1 <> 0 -> p_reqs p =
+     [ReqCall "cbor_serialize" [AP (PSlot slots0 (Z.of_N k) "key"); APO (PArg 1) (Z.of_N written); AZ (Z.of_N (size - written))];
+      ReqCall "cbor_serialize" [AP (PSlot slots0 (Z.of_N k) "value"); APO (PArg 1) (Z.of_N (written + w1)); AZ (Z.of_N (size - (written + w1)))]]) /\
+  (w1 = 0 -> returns p = true /\ ret_N p = 0 /\ ser_pair kv (size - written) = Some (0, o1)) /\
+  (w1 <> 0 -> w2 = 0 -> returns p = true /\ ret_N p = 0 /\ ser_pair kv (size - written) = Some (0, o1 ++ o2)) /\
+  (w1 <> 0 -> w2 <> 0 -> to_head 0 p = true /\ fieldN "round" p = k + 1 /\ fieldN "acc0" p = written + (w1 + w2) /\
+                         ser_pair kv (size - written) = Some (w1 + w2, o1 ++ o2)).
+Proof. exact map_round_follows_plan. Qed.
+
+Theorem C03_float_follows_plan : forall w bits ctrl size c,
+  let p := float_plan (fw_z w) ctrl size c in
+  p_reqs p = [ReqCall (fst (float_encoder w)) (AVal (snd (float_encoder w)) item0 :: whole size)] /\ ret_N p = c /\
+  serialize_into (IFloat w bits) size = float_model (fst (float_encoder w)) bits size.
+Proof. exact float_follows_plan. Qed.
